@@ -157,12 +157,63 @@ def entry_points():
                        '<saml:Issuer>%s</saml:Issuer><saml:NameID>s</saml:NameID></samlp:LogoutRequest>'
                        % (sb.NS_SAMLP, sb.NS_SAML, env.ts(spc.now() - 5), env.IDP1_SLO, env.SP)))
 
-    def md_load(t):
+    def md_dump(mds):
+        # everything the store took from the document, as text (so that an expanded entity shows)
+        keys = list(mds.keys())
+        return repr(dict((k, mds[k]) for k in keys)) if keys else None
+
+    def md_store():
         from saml2_tophat.mdstore import MetadataStore
-        mds = MetadataStore(sp.config.attribute_converters, sp.config)
+        return MetadataStore(sp.config.attribute_converters, sp.config)
+
+    def md_file(t):
+        path = os.path.join(WORKDIR, 'md-%d.xml' % os.getpid())
+        with open(path, 'wb') as f:
+            f.write(t if isinstance(t, bytes) else t.encode('utf-8'))
+        return path
+
+    class FakeHttp(object):
+        def __init__(self, content):
+            self.content = content
+
+        def send(self, url, **kw):
+            class R(object):
+                status_code = 200
+            r = R()
+            r.content = self.content
+            r.text = self.content if not isinstance(self.content, bytes) else self.content.decode('utf-8', 'replace')
+            return r
+
+    def md_load(t):
+        mds = md_store()
         mds.load('inline', t)
-        return mds if len(list(mds.keys())) > 0 else None
+        return md_dump(mds)
+
+    def md_load_local(t):
+        mds = md_store()
+        mds.load('local', md_file(t))
+        return md_dump(mds)
+
+    def md_imp_file(t):
+        mds = md_store()
+        mds.imp([{'class': 'saml2_tophat.mdstore.MetaDataFile', 'metadata': [(md_file(t),)]}])
+        return md_dump(mds)
+
+    def md_load_remote(t):
+        mds = md_store()
+        mds.http = FakeHttp(t if isinstance(t, bytes) else t.encode('utf-8'))
+        mds.load('remote', url='https://md.verif.example/fed.xml')
+        return md_dump(mds)
+
+    def md_config_local(t):
+        conf = env.sp_config(top_metadata={'local': [md_file(t)]})
+        c = env.make_sp(conf)
+        return md_dump(c.metadata)
     fs('MetadataStore.load[inline]', md_load, lambda: env.idp_metadata())
+    fs('MetadataStore.load[local]', md_load_local, lambda: env.idp_metadata())
+    fs('MetadataStore.imp[MetaDataFile]', md_imp_file, lambda: env.idp_metadata())
+    fs('MetadataStore.load[remote]', md_load_remote, lambda: env.idp_metadata())
+    fs('Saml2Client(config metadata local)', md_config_local, lambda: env.idp_metadata())
 
     def check_signed(t):
         from saml2_tophat import samlp as _samlp
